@@ -87,11 +87,16 @@ def run(chk):
     n = 250 if quick else 4000
     ts, srcs = [], []
     for i in range(n):
-        g = tg.TmplGen(rng.fork(("t", i)), data_names=["a", "b", "item", "index", "it", "ix", "l", "o", "f", "n", "k", "x"])
+        g = tg.TmplGen(rng.fork(("t", i)), data_names=["a", "b", "item", "index", "it", "ix", "l", "o", "f", "n", "k", "x"], src_modules=True)
         t = g.template()
         ts.append(t)
         srcs.append(tg.Printer(rng.fork(("p", i)), vary=(i % 2 == 1)).template(t))
-    groups = render.compile_templates([[["p", s]] for s in srcs])
+    # directed: scopes that end (a `<slot>` with value references of its own, a for / slot-value element) followed by siblings and their
+    # descendants reading the same names; inline and file modules in both orders
+    for t in directed_templates():
+        ts.append(t)
+        srcs.append(tg.Printer().template(t))
+    groups = render.compile_templates([tg.group_request(t, s) for t, s in zip(ts, srcs)])
     items, idx = [], []
     for i, (t, g) in enumerate(zip(ts, groups)):
         if "panic" in g:
@@ -115,6 +120,31 @@ def run(chk):
                 chk.violation("input", "rendered tree differs from the lexically-resolved reference rendering",
                               template=srcs[i], data=it[2], real=a if a is not None else r, reference=b)
     chk.bump("oracle:render-cases", len(items))
+
+
+def directed_templates():
+    d = lambda n: ("expr", ("data", n))
+    txt = lambda n: ("text", d(n))
+    out = []
+    def tmpl(nodes, modules=(), src_modules=(), slot_values=True):
+        out.append({"path": "p", "nodes": nodes, "subs": {}, "modules": list(modules), "slot_values": slot_values, "src_modules": list(src_modules)})
+    for ref in [("slot:a", None), ("slot:sv", ("static", "a")), ("slot:item", None), ("slot:x-y", ("static", "index"))]:
+        name = ref[1][1] if ref[1] else ref[0][5:]
+        slot = ("slot", ("static", "inner"), [ref])
+        after = [("for", d("l"), None, None, None, ("elem", "view", [], [("text", ("mixed", [("e", ("data", name)), ("s", "|"), ("e", ("data", "item"))]))])), txt(name),
+                 ("elem", "view", [("plain", "title", d(name))], [("if", [(d("c"), ("elem", "view", [], [txt(name)]))], ("elem", "view", [], [txt(name)]))])]
+        tmpl([("elem", "view", [], [slot] + after)])
+        tmpl([slot] + after)
+        tmpl([("elem", "view", [], [("elem", "view", [("slot:", ref[0][5:], ref[1])], [txt(name)])] + after)])
+        tmpl([("for", d("l"), name, None, None, ("elem", "view", [], [txt(name)]))] + after)
+    pool = tg.MODULE_POOL
+    use = lambda n: ("elem", "v", [], [("text", ("expr", ("smember", ("data", n), "tag")))])
+    for mods in ([pool[0], pool[1]], [pool[1], pool[0]], [pool[0], pool[1], pool[2]], [pool[2], pool[0]]):
+        names = [m[0] for m in mods]
+        for k in range(1 << len(mods)):
+            srcm = [names[i] for i in range(len(mods)) if k >> i & 1]
+            tmpl([("elem", "view", [], [use(n) for n in names])], modules=mods, src_modules=srcm, slot_values=False)
+    return out
 
 
 def replay(chk, path):
